@@ -12,7 +12,6 @@
 """Inventory handlers for Placement API."""
 
 import copy
-import math
 import operator
 
 from oslo_db import exception as db_exc
@@ -83,17 +82,16 @@ def make_inventory_object(resource_provider, resource_class, **data):
     # 0) for non-negative integers. It's not clear if that is
     # duplication or decoupling so leaving it as this for now.
     try:
-        # NaN and (negative) infinity pass the "maximum" of the JSON schema
-        # but are neither storable nor usable in the capacity arithmetic.
-        # An integer beyond the range of a float cannot be stored either.
+        # The JSON schema only gives allocation_ratio a "maximum": NaN (which
+        # compares false with everything) and values below the negative of
+        # that maximum, -Infinity included, pass it but are neither storable
+        # nor usable in the capacity arithmetic. The comparison of an integer
+        # with a float is exact, so integers of any size are covered.
         ratio = data.get('allocation_ratio')
-        if ratio is not None:
-            try:
-                finite = math.isfinite(float(ratio))
-            except OverflowError:
-                finite = False
-            if not finite:
-                raise ValueError('allocation_ratio must be a finite number')
+        if ratio is not None and not (
+                -db_const.SQL_SP_FLOAT_MAX <= ratio
+                <= db_const.SQL_SP_FLOAT_MAX):
+            raise ValueError('allocation_ratio must be a finite number')
         inventory = inv_obj.Inventory(
             resource_provider=resource_provider,
             resource_class=resource_class, **data)
